@@ -87,6 +87,24 @@ def gen_case(seed):
         script.append({"t": 0.3, "side": "client", "op": "write", "sid": 0, "n": r5.choice([2000, 20000]), "fin": False})
         script.sort(key=lambda o: o["t"])
         pattern += "+twice"
+    r6 = random.Random("c13-spoofinit/%s" % seed)
+    if pattern in ("plain", "spoof") and r6.random() < 0.5:
+        # an attacker who can read the client's first datagram (Initial keys are public) sends, with the victim's address as
+        # source, a padded Initial of its own carrying a non-probing frame and the next packet number, between the
+        # server's flight and the client's Handshake packets; after the handshake a 1-RTT packet with the victim's
+        # source address follows (an on-path attacker, or the client itself spoofing): that address was never
+        # validated by a Handshake packet or a PATH_RESPONSE, whatever the server believed in between
+        d = fates.get("delay", 0.02)
+        for k in ("retry", "frontend_vn", "resume", "resume_forget"):
+            opts.pop(k, None)
+        script.append({"t": round(d * r6.choice([1.2, 1.5, 1.8]), 5), "side": "server", "op": "forge", "ptype": "initial", "frames_hex": "01",
+                       "pad_to": 1200, "early": True, "from_alt": True, "pn_gap": r6.choice([0, 30, 30]), "pn_no_reserve": True})
+        for i in range(r6.choice([1, 2])):
+            script.append({"t": round(0.45 + 0.3 * i + r6.random() * 0.2, 4), "side": "server", "op": "forge", "ptype": "1rtt", "frames_hex": "01", "from_alt": True})
+        script.append({"t": 0.3, "side": "server", "op": "write", "sid": 3, "n": r6.choice([300000, 600000]), "fin": True})
+        fates["loss"] = min(fates.get("loss", 0.0), 0.05)
+        script.sort(key=lambda o: o["t"])
+        pattern += "+spoofed-initial-then-packet-from-that-address"
     if rng.random() < 0.4:
         # data written before the handshake completes (fills the congestion window as soon as keys exist)
         script.append({"t": 0.0, "side": "client", "op": "write", "sid": 40, "n": rng.choice([5000, 40000]), "fin": True})
